@@ -37,9 +37,14 @@ RULE = ('programs of 1-4 equations from random syntax trees (as C20), each rende
 TRUSTED = ['extraction of the parser model to OCaml (ExtrOcamlBasic + ExtrOcamlString only) and coq/Extract/Graph/driver.ml',
            'harness/parser_common.py encoders', "CPython's ast.parse / ast.dump as the meaning of a generated code line"]
 ASSUMPTIONS = ['input strings are Latin-1',
-               'layout lemmas are proved on the lexer (Lex.match_here), the template normaliser (ParseEq.normalise_template) and the statement '
-               'splitter (Split.split_lines) for all strings; their composition into parse_equation_M for whole statements is checked by K and O, not proved',
-               '"meaning of the generated code" = ast.dump(ast.parse(code)) (CPython)']
+               'layout lemmas are proved stage by stage, each for all strings: statement splitter (comments, blank lines, independence), '
+               'lexer (blanks inside brackets, [0], +k; one token at a time, any continuation), template normaliser (whitespace runs, '
+               'continuation lines, brackets, idempotence); their composition for whole statements is proved for the fixed-point sentence '
+               '(Props/C14.v C14_normal_form_fixed_point, under the decidable Denorm.dq_ok) and checked by K and O for the other transformations',
+               'that the equations fsic produces satisfy Denorm.dq_ok is checked per case by K_fixed_domain, not proved',
+               '"meaning of the generated code" = ast.dump(ast.parse(code)) (CPython)',
+               'statement permutation and the merge of per-statement symbol lists are checked by the oracle against a reference merge written '
+               'from the documented rules; only parse = merge(map parse_equation statements) is a theorem']
 EXHAUSTIVE = {'quick': False, 'thorough': False}
 CASE_TIMEOUT = 60
 SOURCES = ['parser.py']
@@ -206,6 +211,7 @@ def gen_meta(rng, feats, strict, perm=False):
 
 FIXED = [
     {'k': 'meta', 'stmts': ['Y = X[-1]'], 'var': 'Y = X [-1]', 'strict': False, 'feats': ['sbi'], 'flags': ['space-before-index'], 'perm': None, 'skipfix': []},
+    {'k': 'meta', 'stmts': ['Y = {a} * X["a"]'], 'var': 'Y = {a} * X ["a"]', 'strict': False, 'feats': ['sbi'], 'flags': ['space-before-index'], 'perm': None, 'skipfix': []},
     {'k': 'meta', 'stmts': ['Y[1] = X'], 'var': 'Y[ 1 ] = X', 'strict': True, 'feats': ['lhsinner'], 'flags': ['lhs-index-inner-space'], 'perm': None, 'skipfix': []},
     {'k': 'fence', 'stmts': ['Y = X', '```\nfoo = 1', 'Z = W'], 'flags': ['unclosed-fence']},
     {'k': 'meta', 'stmts': ['C = {alpha_1} * YD + {alpha_2} * H[-1]'], 'var': 'C = ({ alpha_1 }[0] * YD[ 0 ] +\n     {alpha_2}*H[ -1 ])  # consumption',
@@ -218,17 +224,17 @@ FIXED = [
 
 def gen(rng, tier):
     cases = [dict(c) for c in FIXED]
-    n_single = 120 if tier == 'quick' else 2500
+    n_single = 120 if tier == 'quick' else 2000
     for f in FEATS:
         for i in range(n_single):
             cases.append(gen_meta(rng, [f], strict=(i % 2 == 0)))
-    for _ in range(700 if tier == 'quick' else 15000):
+    for _ in range(700 if tier == 'quick' else 12000):
         k = rng.randint(2, len(FEATS))
         cases.append(gen_meta(rng, rng.sample(FEATS, k), strict=rng.random() < 0.5, perm=rng.random() < 0.3))
     for _ in range(40 if tier == 'quick' else 600):
         cases.append(gen_meta(rng, ['sbi'] + rng.sample(FEATS, 2), strict=False))
         cases.append(gen_meta(rng, ['lhsinner', 'inner'], strict=True))
-    for _ in range(400 if tier == 'quick' else 8000):
+    for _ in range(400 if tier == 'quick' else 6000):
         s = pc.gen_script(rng)
         cases.append({'k': 's', 's': s})
         if rng.random() < 0.4:
@@ -269,6 +275,15 @@ DENORM = re.compile(r'\[t([+-][0-9]+)?\]')
 
 def denorm(eq):
     return DENORM.sub(lambda m: '[' + (m.group(1) or '0') + ']', eq)
+
+
+def denorm_loose(eq):
+    """another admissible way of writing the index brackets (theorem C14_fixed_point_any_index_layout): blanks inside the
+    right-hand brackets, leads without "+"; the left-hand side stays compact (finding #22)"""
+    if '=' not in eq:
+        return denorm(eq)
+    lhs, rhs = eq.split('=', 1)
+    return denorm(lhs) + '=' + DENORM.sub(lambda m: '[ ' + (m.group(1) or '0').lstrip('+') + '  ]', rhs)
 
 
 def impl(case):
@@ -312,6 +327,13 @@ def impl(case):
             else:
                 got = [x for x in r['syms'] if x[0] == name and x[1] == 'ENDOGENOUS']
                 ent['got'] = [got[0][4], got[0][5]] if got else None
+            r2 = _parse(denorm_loose(eq))
+            ent['fed2'] = denorm_loose(eq)
+            if 'exc' in r2:
+                ent['exc2'] = r2['exc']
+            else:
+                got = [x for x in r2['syms'] if x[0] == name and x[1] == 'ENDOGENOUS']
+                ent['got2'] = [got[0][4], got[0][5]] if got else None
             fix.append(ent)
     out['fix'] = fix
     return out
@@ -510,6 +532,10 @@ def oracle(case, obs):
             add('fixed-point', 're-parsing the normalised equation %r (fed as %r) raises %s' % (ent['eq'], ent['fed'], ent['exc']))
         elif ent['got'] != [ent['eq'], ent['code']]:
             add('fixed-point', 're-parsing %r gives %r, not %r' % (ent['fed'], ent['got'], [ent['eq'], ent['code']]))
+        if 'exc2' in ent:
+            add('fixed-point-layout', 're-parsing the normalised equation written as %r raises %s' % (ent['fed2'], ent['exc2']))
+        elif 'got2' in ent and ent['got2'] != [ent['eq'], ent['code']]:
+            add('fixed-point-layout', 're-parsing %r gives %r, not %r' % (ent['fed2'], ent['got2'], [ent['eq'], ent['code']]))
     return fails
 
 
